@@ -41,6 +41,8 @@ pub fn main() {
     }
     if matches!(args[1].as_str(), "block" | "replay" | "rerecord" | "ref") {
         crate::watch::start();
+        // single-threaded phases and the baton: callbacks on library worker threads are attributable
+        crate::stub::FOREIGN_ATTRIB.store(true, std::sync::atomic::Ordering::Relaxed);
     }
     match args[1].as_str() {
         "block" => {
